@@ -2,3 +2,5 @@ from . import leaf  # noqa
 from . import tables  # noqa
 from . import classes  # noqa
 from . import quant  # noqa
+from . import panic  # noqa
+from . import gates  # noqa
